@@ -189,6 +189,11 @@ def run(ctx):
             if c.get("kind") == "limit":
                 sp.append(float(c["speed"]))
     run_limits(ctx, sp)
+    if CORPUS.exists():
+        for p in sorted(CORPUS.glob("*.json")):
+            c = json.loads(p.read_text())
+            if c.get("kind") == "mass":
+                run_mass_case(ctx, c)
     for i in range(ctx.n(80, 2000)):
         run_mass_case(ctx, gen_mass_case(ctx.rng, i))
     ctx.samples.append({"kind": "limit", "speeds": sorted(sp)[:8]})
